@@ -10,7 +10,7 @@ for d in sorted(glob.glob("/verif/seeded/*/")):
     det = [k for k, v in fired.items() if v["rc"] == 1]
     err = [k for k, v in fired.items() if v["rc"] == 2]
     suite = m.get("suite_patched", {})
-    rows.append((os.path.basename(d.rstrip("/")), "yes" if m.get("valid_seed") else "NO", suite.get("summary", "")[:24] if suite else "-", ", ".join(det) or "—", ", ".join(err) or "", title))
+    rows.append((os.path.basename(d.rstrip("/")), ("superseded" if m.get("superseded") else "yes" if m.get("valid_seed") else "NO"), suite.get("summary", "")[:24] if suite else "-", ", ".join(det) or "—", ", ".join(err) or "", title))
 print("| seed | valid | suite with patch | detected by | analysis-error in | what |")
 print("|---|---|---|---|---|---|")
 for r in rows:
